@@ -267,6 +267,20 @@ def _operator_cells(tier):
             yield "x = %s[%s]" % (a, b)
             yield "y = %s\ny[%s] = 1" % (a, b)
             yield "x = %s[%s..]" % (a, b) if b.lstrip("(-").split(" ")[0].replace(".", "").isdigit() else "x = %s[0..1]" % a
+    # syntax that is only meaningful in one position (patterns, argument lists, keywords, type hints) placed in every other one,
+    # used and unused: the parser accepts some of these provisionally and the compiler has to reject or compile them
+    constructs = ["{a as b}", "{a as b, c}", "{a, b as _}", "{a}", "{a: Number}", "{a as b: Number}", "(a, rest...)", "(rest..., a)", "(...)", "...", "rest...", "_", "_x", "a: Number", "z = 1",
+                  "z += 1", "yield 1", "break", "break 1", "continue", "return", "return 1", "export z = 1", "import foo", "from foo import bar", "let q = 1", "let q: String = 1", "@main", "@type", "self",
+                  "a?", "a?.b", "null?", "|a| a", "|(a, b...)| a", "|{a as b}| b", "1..", "..", "..=2", "throw 1", "debug 1", "not", "-", "x -> f", "if a then 1", "match a", "a then 1", "else 1", "catch e",
+                  "'{a as b}'", "'{'", "r'x", "1 2", "a b", "a.1", "a.'k'", "a..b..c", "1 < 2 < 3", "a = b = 1", "a, b = 1", "(a, b) = 1, 2", "[a, b] = [1, 2]", "{a}.a", "x: 1", "x: y: 2", "'k': 1", "@+: 1", "f(z = 1)", "f z = 1", "f(a...)", "f a..."]
+    contexts = ["%s", "(%s, z = 1)", "(%s, 1)", "(%s)", "[%s]", "f(%s)", "f %s", "x = %s", "x = (%s, z = 1)", "q = ||\n  (%s, z = 1)\n  1", "q = ||\n  %s\n  1", "q = || %s", "q = || (%s, 1)", "match 1\n  %s then 2\n  else 3",
+                "match (1, 2)\n  (%s, 2) then 2\n  else 3", "for %s in [(1, 2)]\n  1", "for k, %s in {a: 1}\n  1", "q = |%s| 1", "q = |%s| 1\nq({a: 1})", "q = |k, %s| 1", "if %s then 1", "if %s\n  1", "while %s\n  break",
+                "{k: %s}", "{%s}", "'{%s}'", "return %s", "throw %s", "try\n  %s\ncatch e\n  1", "try\n  1\ncatch %s\n  1", "x = if true then %s", "%s = 1", "%s, y = 1, 2", "let %s = 1", "x += %s", "1 + %s", "%s + 1", "%s.foo", "%s[0]", "%s()",
+                "1 -> %s", "%s -> f", "switch\n  %s then 1\n  else 2", "x = switch\n  true then %s", "m =\n  k: %s", "m =\n  %s", "m =\n  @meta %s: 1", "export %s", "export\n  %s", "import %s", "from %s import x", "from x import %s",
+                "loop\n  %s\n  break", "x = loop\n  break %s", "yield %s", "debug %s", "assert %s", "%s\n  1", "%s:\n  1", "f\n  %s", "f(1,\n  %s)", "x = 1\n  %s", "(1, %s, z = 1)\n1", "[1, %s\n]", "x = [%s for y in z]"]
+    for cst in constructs:
+        for ctxt in contexts:
+            yield "RAW:a = 1\nz = 0\nf = |args...| null\n" + ctxt % cst
     # iterators used again after they are exhausted, half-consumed, copied, or reversed
     makers = ["'a,b,c'.split(',')", "'a b'.split(' ')", "'ab\\ncd'.lines()", "'héé'.chars()", "'héé'.char_indices()", "'ab'.bytes()", "[1, 2, 3].iter()", "(1, 2).iter()", "(1..4).iter()",
               "{a: 1, b: 2}.keys()", "{a: 1, b: 2}.values()", "{a: 1}.iter()", "gen()", "[1, 2, 3].each(|v| v)", "[1, 2, 3].keep(|v| true)", "[1, 2, 3].chunks(2)", "[1, 2, 3].windows(2)",
@@ -327,7 +341,9 @@ def _operators_shard(shard, n, tier, seed, budget_s, asan=False):
             break
         if asan and re.search(r"\{v:[^}]*\d{5,}", body):
             continue      # gigabyte-wide padding is an allocation test: the sanitizer worker runs without an address-space limit
-        if body.startswith("UNCAUGHT:"):
+        if body.startswith("RAW:"):
+            src = body[len("RAW:"):] + "\n"
+        elif body.startswith("UNCAUGHT:"):
             src = pools.PRELUDE + body[len("UNCAUGHT:"):] + "\n"      # the host renders the uncaught error
         else:
             src = pools.PRELUDE + "try\n" + "\n".join("  " + l for l in body.split("\n")) + "\ncatch _\n  null\n"
